@@ -39,12 +39,12 @@ normalised root followed by a separator, is itself normalised, has no `..` segme
 segments of the normalised root are a prefix of the segments of `p` (segment-wise: a sibling
 directory that merely shares the root's name as a string prefix is excluded). -/
 theorem served_inside_root (fs : Fs) (cwd root filename p : Str) (hcwd : cwd.head? = some '/')
-    (h : decide fs cwd root filename = .open_ p) :
+    (h : staticDecide fs cwd root filename = .open_ p) :
     (abspath cwd root ++ ['/']) <+: p ∧ p = normpath p ∧ dotdot ∉ segments p ∧
       segments (abspath cwd root) <+: segments p := by
   -- the decision opens only `target`, and only after the prefix test
   have hp : p = target cwd root filename ∧ (rootDir cwd root).isPrefixOf (target cwd root filename) = true := by
-    unfold decide at h
+    unfold staticDecide at h
     simp only at h
     split at h
     · cases h
@@ -89,10 +89,10 @@ theorem served_inside_root (fs : Fs) (cwd root filename p : Str) (hcwd : cwd.hea
 /-- **only_open_is_served.**  `static_file` hands at most one path to `open`, and only the path of
 a positive decision. -/
 theorem only_open_is_served (fs : Fs) (cwd root filename : Str) (isHead notMod : Bool) :
-    (∀ q ∈ (serve fs cwd root filename isHead notMod).opened, decide fs cwd root filename = .open_ q) ∧
+    (∀ q ∈ (serve fs cwd root filename isHead notMod).opened, staticDecide fs cwd root filename = .open_ q) ∧
     (serve fs cwd root filename isHead notMod).opened.length ≤ 1 := by
   unfold serve
-  cases hd : decide fs cwd root filename with
+  cases hd : staticDecide fs cwd root filename with
   | deny403 => simp
   | deny404 => simp
   | open_ p =>
@@ -104,7 +104,7 @@ theorem only_open_is_served (fs : Fs) (cwd root filename : Str) (isHead notMod :
 /-- **else_403_404.**  Without a positive decision the answer is 403 or 404 and nothing is opened;
 conversely a 403/404 answer never comes with an opened file. -/
 theorem else_403_404 (fs : Fs) (cwd root filename : Str) (isHead notMod : Bool) :
-    ((∀ p, decide fs cwd root filename ≠ .open_ p) →
+    ((∀ p, staticDecide fs cwd root filename ≠ .open_ p) →
       ((serve fs cwd root filename isHead notMod).status = 403 ∨
        (serve fs cwd root filename isHead notMod).status = 404) ∧
       (serve fs cwd root filename isHead notMod).opened = []) ∧
@@ -112,7 +112,7 @@ theorem else_403_404 (fs : Fs) (cwd root filename : Str) (isHead notMod : Bool) 
       (serve fs cwd root filename isHead notMod).status = 404) →
       (serve fs cwd root filename isHead notMod).opened = []) := by
   unfold serve
-  cases hd : decide fs cwd root filename with
+  cases hd : staticDecide fs cwd root filename with
   | deny403 => simp
   | deny404 => simp
   | open_ p =>
@@ -124,9 +124,9 @@ theorem else_403_404 (fs : Fs) (cwd root filename : Str) (isHead notMod : Bool) 
       · split <;> simp
 
 /-- a positive decision needs the file to exist, to be a regular file and to be readable -/
-theorem open_needs_fs (fs : Fs) (cwd root filename p : Str) (h : decide fs cwd root filename = .open_ p) :
+theorem open_needs_fs (fs : Fs) (cwd root filename p : Str) (h : staticDecide fs cwd root filename = .open_ p) :
     fs.exists_ p = true ∧ fs.isfile p = true ∧ fs.access p = true := by
-  unfold decide at h
+  unfold staticDecide at h
   simp only at h
   split at h
   · cases h
@@ -162,17 +162,17 @@ def fsAll : Fs := ⟨fun _ => true, fun _ => true, fun _ => true⟩
 /-- a working directory meeting `hcwd`, a relative root with a trailing separator, a name with
 `..`, a backslash and surrounding separators: served from inside -/
 example : ("/w".toList).head? = some '/' := by decide
-example : decide fsAll "/w".toList "root/".toList "/sub/../a.txt\\".toList = .open_ "/w/root/a.txt".toList := by
+example : staticDecide fsAll "/w".toList "root/".toList "/sub/../a.txt\\".toList = .open_ "/w/root/a.txt".toList := by
   decide
 example : (serve fsAll "/w".toList "root/".toList "/sub/../a.txt\\".toList false false).opened =
     ["/w/root/a.txt".toList] := by decide
 /-- the sibling that shares the root's name as a string prefix is refused … -/
-example : decide fsAll "/w".toList "root".toList "../root2/secret.txt".toList = .deny403 := by decide
+example : staticDecide fsAll "/w".toList "root".toList "../root2/secret.txt".toList = .deny403 := by decide
 /-- … and is not inside in the segment-wise sense, although it is in the naive string sense -/
 example : "/w/root".toList <+: "/w/root2/secret.txt".toList := by decide
 example : ¬ segments "/w/root".toList <+: segments "/w/root2/secret.txt".toList := by decide
 /-- climbing out and coming back in is inside -/
-example : decide fsAll "/w".toList "/w/root".toList "../root/a.txt".toList = .open_ "/w/root/a.txt".toList := by
+example : staticDecide fsAll "/w".toList "/w/root".toList "../root/a.txt".toList = .open_ "/w/root/a.txt".toList := by
   decide
 example : normpath "//a/./b/../../../c//".toList = "//c".toList := by decide
 example : normpath "a/../../b".toList = "../b".toList := by decide
